@@ -17,6 +17,7 @@ from .serialization import (
     cell_to_parent,
     get_stride,
     is_first_child,
+    HILBERT_START_BIT,
     FIRST_HILBERT_RESOLUTION
 )
 from .cell_info import get_num_children
@@ -66,6 +67,20 @@ def uncompact(cells: List[int], target_resolution: int) -> List[int]:
     return result
 
 
+def _hierarchy_key(cell: int) -> int:
+    """
+    Sort key giving the position of a cell in the hierarchy. Numeric order is not enough:
+    resolution 0 ids store the face in the top 6 bits where finer ids store 5 * face + segment,
+    so a resolution 0 id falls inside the numeric range of the finer cells of faces 0-2.
+    """
+    resolution = get_resolution(cell)
+    if resolution < 0:
+        return -1
+    if resolution == 0:
+        return ((cell >> HILBERT_START_BIT) * 5) << HILBERT_START_BIT
+    return cell
+
+
 def compact(cells: List[int]) -> List[int]:
     """
     Compacts a set of A5 cells by replacing complete groups of sibling cells with their parent cells.
@@ -79,11 +94,11 @@ def compact(cells: List[int]) -> List[int]:
     if len(cells) == 0:
         return []
 
-    # Single sort and dedup
-    current_cells = sorted(set(cells))
+    # Single sort and dedup, ordered so that every cell sits directly before its descendants
+    current_cells = sorted(set(cells), key=_hierarchy_key)
 
     # Compact until no more changes
-    # No re-sorting needed - parents maintain sorted order!
+    # No re-sorting needed - parents maintain this order!
     changed = True
     while changed:
         changed = False
